@@ -309,4 +309,16 @@ def dpRev : List (List Nat) → List Nat → Nat × Nat
         row.getD m 0 * (cur.2 + par.1 + (if s.dropLast.getLast? = some m then 0 else par.2))
     (row.getD 0 0 * (cur.1 + cur.2), nb')
 
+/-- "Nothing is pruned at this step": the number of extensions with non-zero probability
+does not exceed the beam width. -/
+def noPruneStep {α} (ops : Ops α) (B L : Nat) (beam : List (BState α)) (row : List α) : Bool :=
+  decide (((candidates ops L beam.length (extendAll ops L beam row)).filter
+    (fun e => !ops.isZero e.prob)).length ≤ B)
+
+/-- "The beam is wide enough that nothing is pruned" at any step of the run. -/
+def noPrune {α} (ops : Ops α) (B L : Nat) : List (BState α) → Nat → List (List α) → Bool
+  | _, _, [] => true
+  | beam, pos, row :: rows =>
+    noPruneStep ops B L beam row && noPrune ops B L (beamStep ops B L beam pos row) (pos + 1) rows
+
 end RtenVerif.Ctc
